@@ -1,4 +1,4 @@
-"""C03 -- extract preserves behaviour or is refused (VGC rules R03.1-R03.13)."""
+"""C03 -- extract preserves behaviour or is refused (VGC rules R03.1-R03.14)."""
 from __future__ import annotations
 
 import ast
@@ -233,9 +233,36 @@ def check(ctx, res) -> None:
     # sets depending on `self.conditional`; every computation that decides what is passed back (returns) or re-declared
     # (global / nonlocal) must take the union of all of them -- leaving one out silently drops conditional writes.
     wv = idx.need_func(f"{COLLECTOR}._written_variable")
-    wcfg = _CFG(wv.node)
+    from .common import inline_private_calls
+    wv_node = inline_private_calls(idx, wv)  # the in-region part may live in a private helper
+    wcfg = _CFG(wv_node)
     pname = param_names(wv.node)[1] if len(param_names(wv.node)) > 1 else None
+    lparam = param_names(wv.node)[2] if len(param_names(wv.node)) > 2 else None
+
+    def region_facts(gs):
+        """(lower bound holds, upper bound holds) as implied by the guards: start <= line <= end, however it is written"""
+        lo = hi = False
+        for t, pol in gs:
+            if not isinstance(t, ast.Compare):
+                continue
+            terms = [t.left] + list(t.comparators)
+            for a, op, b in zip(terms, t.ops, terms[1:]):
+                def kind(x):
+                    return "start" if is_self_attr(x, "start") else "end" if is_self_attr(x, "end") else "line" if isinstance(x, ast.Name) and x.id == lparam else None
+                ka, kb = kind(a), kind(b)
+                if {ka, kb} == {"start", "line"}:
+                    # normalise to  start OP' line
+                    o = type(op) if ka == "start" else {ast.Lt: ast.Gt, ast.Gt: ast.Lt, ast.LtE: ast.GtE, ast.GtE: ast.LtE}.get(type(op))
+                    if (o is ast.LtE and pol) or (o is ast.Gt and not pol):
+                        lo = True
+                if {ka, kb} == {"end", "line"}:
+                    o = type(op) if ka == "line" else {ast.Lt: ast.Gt, ast.Gt: ast.Lt, ast.LtE: ast.GtE, ast.GtE: ast.LtE}.get(type(op))
+                    if (o is ast.LtE and pol) or (o is ast.Gt and not pol):
+                        hi = True
+        return lo, hi
+
     region_sets: Set[str] = set()
+    region_adds = []
     for n in wcfg.nodes:
         if n.kind != "stmt" or n.ast is None:
             continue
@@ -243,15 +270,37 @@ def check(ctx, res) -> None:
             if isinstance(c.func, ast.Attribute) and c.func.attr == "add" and is_self_attr(c.func.value) and c.args \
                     and isinstance(c.args[0], ast.Name) and c.args[0].id == pname:
                 gs = wcfg.guards(n.id)
-                in_region = [t for t, pol in gs if pol and isinstance(t, ast.Compare) and
-                             {x.attr for x in ast.walk(t) if is_self_attr(x)} >= {"start", "end"}]
-                others = [t for t, pol in gs if t not in in_region and not wcfg.is_named_condition(t)]
-                if in_region and all(is_self_attr(t, "conditional") or (isinstance(t, ast.UnaryOp) and is_self_attr(t.operand, "conditional"))
+                lo, hi = region_facts(gs)
+                others = [t for t, pol in gs if not wcfg.is_named_condition(t) and not (
+                    isinstance(t, ast.Compare) and any(is_self_attr(x, "start") or is_self_attr(x, "end") for x in ast.walk(t)))]
+                if lo and hi and all(is_self_attr(t, "conditional") or (isinstance(t, ast.UnaryOp) and is_self_attr(t.operand, "conditional"))
                                      for t in others):
                     region_sets.add(c.func.value.attr)
+                    region_adds.append((n, c.func.value.attr))
     if len(region_sets) < 2:
         raise AnalysisError(f"anchor=_written_variable: in-region write sets not recognised ({sorted(region_sets)})")
     res.analysed["R03.9_write_sets"] = sorted(region_sets)
+
+    # ---- R03.14 a write inside the region that happens in a loop whose next iteration reads the name makes the name
+    # "read afterwards" (it must be passed back) -- for conditional writes just as for unconditional ones: after EVERY
+    # filing of an in-region write the loop-depth step is passed
+    def loop_step(n) -> bool:
+        if n.kind != "test" or n.ast is None:
+            return False
+        e = n.ast
+        if isinstance(e, ast.Name) and wcfg.is_named_condition(e):  # `in_loop = self.loop_depth > 0` ... `if in_loop and ...`
+            e = wcfg._single_definition(e.id)
+        return any(is_self_attr(x, "loop_depth") for x in ast.walk(e))
+
+    if not any(loop_step(n) for n in wcfg.nodes):
+        raise AnalysisError("anchor=_written_variable: the loop-depth step that marks loop-carried names as read afterwards not found")
+    for n, setname in region_adds:
+        ok14 = wcfg.must_pass_through(n.id, wcfg.exit.id, loop_step)
+        res.add("R03.14", f"_written_variable|loop-carried:{setname}", ok14, f"{wv.unit.rel}:{n.lineno}",
+                f"after a write is filed under `{setname}` the loop-carried check (loop_depth > 0 and the name was read) is always made" if ok14 else
+                f"a write filed under `{setname}` can leave the collector without the loop-carried check: a name that the region reads and then rebinds "
+                "(conditionally) inside a loop is not marked as read afterwards, the extracted function does not return it, and the next iteration of the "
+                "loop sees the old value", function=wv.qualname)
 
     def contributions(fn: ast.AST, e: ast.AST, depth: int = 0) -> Set[str]:
         """which in-region write sets can contribute names to the value of set expression e"""
@@ -383,7 +432,7 @@ def check(ctx, res) -> None:
                     f"{m.name} tests `{ast.unparse(x)}` while the other in-region tests of the collector use start <= line <= end: a one-line compound "
                     "statement on the region's last line is not treated as conditional, so what it assigns counts as always written (returned but not "
                     "passed in: UnboundLocalError on the path where its body does not run)", function=m.qualname)
-    res.floor("R03.12", "in-region interval tests of the collector", n12, 3)
+    res.floor("R03.12", "in-region interval tests of the collector", n12, 2)
 
     # ---- R03.13 (=R15.12) `import a.b` binds `a`
     from .common import import_binding_rule
